@@ -66,7 +66,16 @@ def run_dialogue(vtag, all_metrics, answers, no_colors=None, limit=None, version
     h = zlib.crc32(repr((vtag, bool(all_metrics), list(answers))).encode("utf-8", "replace"))
     if no_colors is None:
         no_colors = h % 3 != 0
-    fout = MinimalOut() if h % 4 == 1 else io.StringIO()
+    raw = None
+    if h % 4 == 1:
+        fout = MinimalOut()
+    elif h % 4 == 2 and all(ord(ch) < 128 for ch in text):
+        # ASCII-only answers on a stream that can take ASCII only (LANG=C, PYTHONIOENCODING=ascii): whatever the builder
+        # prints for them must be printable there
+        raw = io.BytesIO()
+        fout = io.TextIOWrapper(raw, encoding="ascii", errors="strict", newline="", write_through=True)
+    else:
+        fout = io.StringIO()
     old = sys.stdin, sys.stdout
     sys.stdin, sys.stdout = fin, fout
     r = {"ret": None, "exc": None}
@@ -87,7 +96,7 @@ def run_dialogue(vtag, all_metrics, answers, no_colors=None, limit=None, version
         MODES.append([vtag, bool(all_metrics)])
     RECENT.append([vtag, bool(all_metrics), list(answers)[:400]])
     del RECENT[:-4]
-    r["out"] = fout.getvalue()
+    r["out"] = raw.getvalue().decode("ascii", "replace") if raw is not None else fout.getvalue()
     r["reads"] = min(fin.reads, fin.limit)
     r["consumed_all"] = fin.tell() >= len(text)
     return r
